@@ -227,6 +227,87 @@ theorem C32_reregister (view : P → Option (RrelObj T)) (parse : String → T) 
       refs.map (callOf Gen.providerOrder view (register parse raw)) ::
         run Gen.providerOrder view parse (register parse raw) rest := rfl
 
+/-! ## registration order, the visitor's stores, answers -/
+
+/-- **Precedence is by key, not by registration order.**  `register_scope_providers` receives a
+Python dict (one entry per key, `hk`); in whatever order its entries were inserted (`hp`), every
+reference gets the same provider. -/
+theorem C32_perm_indep (parse : String → T) (raw raw' : List (String × RegVal P))
+    (hk : (raw.map (·.1)).Nodup) (hp : raw'.Perm raw) (cls attr : String) (g : Option T) :
+    select Gen.providerOrder (register parse raw') cls attr g =
+      select Gen.providerOrder (register parse raw) cls attr g :=
+  select_perm Gen.providerOrder parse raw raw' hk hp cls attr g
+
+/-- … hence the same call (expression, delimiter, name parts) for every reference, -/
+theorem C32_perm_indep_call (view : P → Option (RrelObj T)) (parse : String → T)
+    (raw raw' : List (String × RegVal P)) (hk : (raw.map (·.1)).Nodup) (hp : raw'.Perm raw) (r : Ref T) :
+    callOf Gen.providerOrder view (register parse raw') r = callOf Gen.providerOrder view (register parse raw) r := by
+  simp only [callOf, C32_perm_indep parse raw raw' hk hp]
+
+/-- … and the same calls in the whole rest of the meta-model's history. -/
+theorem C32_perm_indep_history (view : P → Option (RrelObj T)) (parse : String → T) (d : Dict P T)
+    (raw raw' : List (String × RegVal P)) (hk : (raw.map (·.1)).Nodup) (hp : raw'.Perm raw)
+    (refs : List (Ref T)) (rest : List (Step P T)) :
+    run Gen.providerOrder view parse d (⟨some raw', refs⟩ :: rest) =
+      run Gen.providerOrder view parse d (⟨some raw, refs⟩ :: rest) := by
+  have hc := C32_perm_indep_call view parse raw raw' hk hp
+  simp only [run, List.cons.injEq]
+  exact ⟨List.map_congr_left (fun r _ => hc r), run_congr _ view parse rest _ _ hc⟩
+
+/-- `hk` is needed: the association-list model would let the first of two entries with one key
+win (a Python dict cannot hold such a pair). -/
+theorem C32_perm_dupkeys_false :
+    ∃ (raw raw' : List (String × RegVal Nat)), raw'.Perm raw ∧
+      select (T := String) Gen.providerOrder (register id raw') "R" "t" none ≠
+        select Gen.providerOrder (register id raw) "R" "t" none :=
+  ⟨[("*.*", .prov 0), ("*.*", .prov 1)], [("*.*", .prov 1), ("*.*", .prov 0)], List.Perm.swap _ _ _, by decide⟩
+
+/-- **The visitor's two stores, repaired code.**  `visit true` mirrors `visit_assignment` (one
+slot per attribute, overwritten; one slot per assignment rule), `refRrel` the read in
+`process_node` (`getattr(node.rule, "_scope_provider", metaattr.scope_provider)`).  The reference
+created at assignment `i` carries the RREL written there — `occRrel` is what the code computes —
+so it is resolved as if its assignment were the only one of the attribute. -/
+theorem C32_visit_repaired (occs : List (Occ T)) (i : Nat) (o : Occ T) (d : Dict P T) (cls : String)
+    (hi : occs[i]? = some o) :
+    refRrel (visit true occs) i o.attr = occRrel occs i ∧
+    select Gen.providerOrder d cls o.attr (refRrel (visit true occs) i o.attr) =
+      select Gen.providerOrder d cls o.attr o.rrel := by
+  rw [refRrel_visit_repaired occs i o hi]
+  simp [occRrel, hi]
+
+/-- **The same stores, pinned code** (per-assignment slot never written): the read falls back to
+the attribute's slot, i.e. to the last assignment of that attribute — `occRrelLastWins`. -/
+theorem C32_visit_pinned (occs : List (Occ T)) (i : Nat) (o : Occ T) (hi : occs[i]? = some o) :
+    refRrel (visit false occs) i o.attr = occRrelLastWins occs i :=
+  refRrel_visit_pinned occs i o hi
+
+/-- negation witness on the stores themselves (pinned visitor) -/
+theorem C32_visit_pinned_false :
+    ∃ (occs : List (Occ String)) (i : Nat) (o : Occ String) (t : String) (d : Dict Nat String),
+      occs[i]? = some o ∧ o.rrel = some t ∧
+      select Gen.providerOrder d "R" o.attr (refRrel (visit false occs) i o.attr) ≠ .rrel t :=
+  ⟨[⟨"t", some "x"⟩, ⟨"t", none⟩], 0, ⟨"t", some "x"⟩, "x", [("*.*", .custom 7)], rfl, rfl, by decide⟩
+
+/-- what a provider call answers, given what `find` computes for (expression, delimiter, name
+parts) — RREL evaluation, the subject of C11/C12 — and what user callables / the default provider answer -/
+def Call.answer {R : Type} (find : T → String → List String → R) (user : P → R) (dflt : R) : Call P T → R
+  | .user p => user p
+  | .find t delim parts => find t delim parts
+  | .dflt => dflt
+
+/-- **RREL strings, answers.**  Whatever RREL evaluation computes (`find` arbitrary, e.g. the
+`Rrel.find` of C11 on any model), a reference served by a registered string gets the answer it
+gets with the string written in the grammar. -/
+theorem C32_rrel_string_same_answer {R : Type} (find : T → String → List String → R) (user : P → R) (dflt : R)
+    (view : P → Option (RrelObj T)) (parse : String → T)
+    (raw : List (String × RegVal P)) (d' : Dict P T) (cls attr s name : String) (rs : Option String)
+    (i : Nat) (hi : i < (documentedKeys cls attr).length)
+    (hreg : raw.lookup (documentedKeys cls attr)[i] = some (.str s))
+    (hfirst : ∀ j, (hj : j < i) → raw.lookup ((documentedKeys cls attr)[j]'(by omega)) = none) :
+    (callOf Gen.providerOrder view (register parse raw) ⟨cls, attr, none, name, rs⟩).answer find user dflt =
+      (callOf Gen.providerOrder view d' ⟨cls, attr, some (parse s), name, rs⟩).answer find user dflt := by
+  rw [C32_rrel_string_same_call view parse raw d' cls attr s name rs i hi hreg hfirst]
+
 /-! non-vacuity -/
 example : select (P := Nat) (T := String) Gen.providerOrder
     [("*.*", .custom 0), ("R.*", .custom 1), ("*.t", .custom 2)] "R" "t" none = .custom 2 := by decide
@@ -251,5 +332,16 @@ example : callOf (P := Nat) (T := String) Gen.providerOrder
     [("R.*", .custom 0), ("*.*", .custom 1)] ⟨"R", "u", none, "a/b.c", some "/"⟩ =
     .find "pe" "." ("a/b.c".splitOn ".") := by
   simp [callOf, select, Gen.providerOrder, KeyExpr.eval, Piece.eval, lookupLoop, Dict.get?, RrelObj.call, delimiter]
+
+/- `hk`, `hp` of `C32_perm_indep`: the same dict built in another order -/
+example : (([("*.*", .prov 0), ("R.t", .str "^x"), ("*.t", .prov 1)] : List (String × RegVal Nat)).map (·.1)).Nodup := by
+  decide
+example : ([("R.t", .str "^x"), ("*.t", .prov 1), ("*.*", .prov 0)] : List (String × RegVal Nat)).Perm
+    [("*.*", .prov 0), ("R.t", .str "^x"), ("*.t", .prov 1)] := by decide
+/- the stores for `'a' t=[A|ID|x] | 'b' u=[A] | 'c' t=[A]`: repaired and pinned read of the first reference -/
+example : refRrel (visit true [⟨"t", some "x"⟩, ⟨"u", none⟩, ⟨"t", none⟩]) 0 "t" = some "x" := by decide
+example : refRrel (visit false [⟨"t", some "x"⟩, ⟨"u", none⟩, ⟨"t", none⟩]) 0 "t" = none := by decide
+example : refRrel (visit true [⟨"t", none⟩, ⟨"u", none⟩, ⟨"t", some "y"⟩]) 0 "t" = none := by decide
+example : refRrel (visit false [⟨"t", none⟩, ⟨"u", none⟩, ⟨"t", some "y"⟩]) 0 "t" = some "y" := by decide
 
 end Select
